@@ -220,7 +220,8 @@ def main(tier):
     ntri = 100 if tier == "quick" else 6000
     while ntri > 0:
         t = [rng.choice(names) for _ in range(3)]
-        if admissible(t) and not ("halve" in t and "filter-every-3rd" in t):
+        # (halving makes rationals; the filter stages' periodic predicate -- every 3rd item -- is stated for integers)
+        if admissible(t) and not ("halve" in t and any(nm.startswith("filter") for nm in t)):
             cs.append((t, rng.choice([6, 21, 41])))
             ntri -= 1
     with common.Scratch(PID) as s:
